@@ -10,7 +10,9 @@ What is run against the real crate (driver harness/src/bin/c14.rs):
       definitions Err.Loc.resolves_string / resolves_amb executed by the extracted oracle;
   (d) the same call gives the same rendering 3 times in a row, again in another process after >= 100 unrelated calls in a
       different order, and from 16 threads concurrently;
-  (e) src/ is scanned for process-global mutable state.
+  (d') history groups: schemas sharing their literals and differing in one operator or flag, run in one process in every order and
+      concurrently into a cold process, each call compared with its result alone in a fresh process;
+  (e) src/ is scanned for process-global mutable state; a static outside the reviewed baseline is a broken obligation.
 """
 import json, os, random, re, struct
 from concurrent.futures import ThreadPoolExecutor
@@ -830,9 +832,11 @@ def run_histories(res, drv, rng, n_groups, extra_orders, forced_kinds=()):
             if got == base[l] or (gi, l) in reported:
                 continue
             reported.add((gi, l))
+            if len(reported) > 40:
+                continue                     # enough concrete histories; res.finish prints at most 20
             # shrink: one earlier call that is enough
             hist = lines[:pos]
-            for h in hist:
+            for h in (hist if len(reported) <= 12 else []):
                 two = common.run_tool(drv, [h, l], shards=1)
                 if len(two) == 2 and two[1] != base[l]:
                     hist = [h]
@@ -1234,7 +1238,7 @@ def replay_findings(res, kfs, drv, orc, table):
 
 def replay(path):
     r = json.load(open(path))["replay"]
-    drv = common.build_harness("c14")
+    drv = os.environ.get("VERIF_C14_DRIVER") or common.build_harness("c14")
     common.coq_build([EXTRACT])
     orc = common.build_oracle("err", ["err_model"])
     if "history" in r:
